@@ -796,7 +796,16 @@ Section Correct.
 
   (* the tree t, entered with n variables bound, reaches the continuation k having consumed exactly the
      encoding from sub-slice sid, with the attributes `names` bound to the values `look` gives them *)
-  Definition post (t : dtree) (k : kont) (names : list string) (look : string -> pv)
+  (* the widths of the variables that hold the w-bit fields of the table wtab (those whose lowest bit
+     conditions a later field) are what the layout says *)
+  Definition went (wtab : list (string * nat)) (W : list nat) (p : string * dexpr) : Prop :=
+    forall w0, In (fst p, w0) wtab -> exists i, snd p = EVar i /\ nth i W 1 = w0.
+  Definition wacc_ok (wtab : list (string * nat)) (W : list nat) (acc : list (string * dexpr)) : Prop :=
+    Forall (fun p => forall morew, went wtab (W ++ morew) p) acc.
+  Definition name_ok (wtab : list (string * nat)) (nm : string) (f : fty) : Prop :=
+    forall w0, In (nm, w0) wtab -> fty_src_ok f w0 = true.
+
+  Definition post (wtab : list (string * nat)) (t : dtree) (k : kont) (names : list string) (look : string -> pv)
       (sid n ns : nat) (acc : list (string * dexpr)) (ss : slices) (env : list pv) (w : list nat)
       (tb : list bool) (tr : list cell) (fuel bound : nat) : Prop :=
     exists c ss' vals ws acc' ns',
@@ -807,7 +816,8 @@ Section Correct.
       /\ (forall j, j <> sid -> j < ns -> get_slice ss' j = get_slice ss j)
       /\ List.length ws = List.length vals /\ ns <= ns'
       /\ map fst acc' = names
-      /\ Forall (fun p => forall more, entry_ok look (env ++ vals ++ more) p) acc'.
+      /\ Forall (fun p => forall more, entry_ok look (env ++ vals ++ more) p) acc'
+      /\ wacc_ok wtab (w ++ ws) acc'.
 
   (* the leaves of a dictionary, parsed one by one by the value tree, give back the pairs *)
   Lemma dict_run vf n vt f : forall (kl : list (Z * pv)) (src : kvs),
@@ -863,20 +873,20 @@ Section Correct.
     - exact (keys_length n src _ Hkeys).
   Qed.
 
-  Lemma field_prim f o nm look c bits refs :
-    fty_op f = Some o ->
+  Lemma field_prim wtab f o nm look c bits refs :
+    fty_op f = Some o -> name_ok wtab nm f ->
     wf_fty f = true -> WT f (look nm) c ->
     ENC f (look nm) = Ok (bits, refs) ->
     forall sid n ns acc k ss env w tb tr fuel,
       get_slice ss sid = Ok (ord (mkS (bits ++ tb) (refs ++ tr))) ->
       List.length env = n -> List.length w = n -> sid < ns -> NEED f <= fuel ->
-      post (compile_field f nm sid n ns acc k) k [nm] look sid n ns acc ss env w tb tr fuel (NEED f).
+      post wtab (compile_field f nm sid n ns acc k) k [nm] look sid n ns acc ss env w tb tr fuel (NEED f).
   Proof.
-    intros Hop Hwf Hwt Henc sid n ns acc k ss env w tb tr fuel Hget Hn Hw Hsid Hfuel.
+    intros Hop Hwtab Hwf Hwt Henc sid n ns acc k ss env w tb tr fuel Hget Hn Hw Hsid Hfuel.
     rewrite (need_prim _ f o Hop) in *. rewrite (compile_prim f o nm sid n ns acc k Hop).
     exists 1, (set_slice ss sid (ord (mkS tb tr))), [fty_raw f (look nm)], [op_width o],
            [(nm, fty_expr f n)], ns.
-    split; [|split; [|split; [|split; [|split; [|split; [|split]]]]]].
+    split; [|split; [|split; [|split; [|split; [|split; [|split; [|split]]]]]]].
     - rewrite (run_prim tbl fuel sid o _ ss env w _ _ _ Hfuel Hget
                  (prim_field_load _ _ _ _ f o _ c bits refs tb tr Hop Hwf Hwt Henc)).
       cbn [ts_ty List.length]. replace (n + 1) with (S n) by lia. reflexivity.
@@ -888,17 +898,23 @@ Section Correct.
     - reflexivity.
     - constructor; [|constructor]. intros more.
       apply (prim_field_entry ch (wt_type ch st d) (rest_type ch st) look f o nm c); assumption.
+    - constructor; [|constructor]. intros morew w0 Hin. cbn [fst snd] in Hin |- *.
+      pose proof (Hwtab w0 Hin) as E. exists n.
+      destruct f; cbn [fty_src_ok] in E; try discriminate E; cbn [fty_op] in Hop; inversion Hop; subst o;
+        cbn [fty_expr op_width]; (split; [reflexivity|]); apply Nat.eqb_eq in E;
+        rewrite <- app_assoc; cbn [app]; rewrite <- Hw, nth_middle; congruence.
   Qed.
 
   (* the statement proved for every field type *)
   Definition field_ok (f : fty) : Prop :=
-    forall nm look c bits refs,
+    forall wtab nm look c bits refs,
+      name_ok wtab nm f ->
       wf_fty f = true -> WT f (look nm) c -> ENC f (look nm) = Ok (bits, refs) ->
       forall sid n ns acc k ss env w tb tr fuel,
         ctx_ok c tb tr ->
         get_slice ss sid = Ok (ord (mkS (bits ++ tb) (refs ++ tr))) ->
         List.length env = n -> List.length w = n -> sid < ns -> NEED f <= fuel ->
-        post (compile_field f nm sid n ns acc k) k [nm] look sid n ns acc ss env w tb tr fuel (NEED f).
+        post wtab (compile_field f nm sid n ns acc k) k [nm] look sid n ns acc ss env w tb tr fuel (NEED f).
 
   (* a value alone in a slice (a dictionary leaf), followed by anything *)
   Lemma value_run vf x b r fuel tb tr :
@@ -907,9 +923,9 @@ Section Correct.
                 = Ok (x, ss') /\ get_slice ss' 0 = Ok (ord (mkS tb tr)).
   Proof.
     intros Hok Hwf Hwt Henc Hfuel.
-    destruct (Hok ""%string (fun _ => x) None b r Hwf Hwt Henc 0 0 1 [] kret
+    destruct (Hok [] ""%string (fun _ => x) None b r (fun w0 (H : In _ []) => match H with end) Hwf Hwt Henc 0 0 1 [] kret
                 [(0, ord (mkS (b ++ tb) (r ++ tr)))] [] [] tb tr fuel)
-      as (c & ss1 & vals & ws & acc1 & ns1 & Hrun & Hc & Hg & _ & _ & _ & Hnames & Hev);
+      as (c & ss1 & vals & ws & acc1 & ns1 & Hrun & Hc & Hg & _ & _ & _ & Hnames & Hev & _);
       try (reflexivity || lia || exact I).
     destruct acc1 as [|[nm1 e1] [|q acc2]]; cbn [map] in Hnames; try discriminate.
     cbn [app] in Hrun. unfold kret in Hrun at 2. rewrite run_ret in Hrun by lia.
@@ -944,7 +960,13 @@ Section Correct.
     apply load_dict_valid; [lia|exact Hvok|apply canon_cell_ordinary].
   Qed.
 
-  Local Ltac post_split := split; [|split; [|split; [|split; [|split; [|split; [|split]]]]]].
+  (* the last component of [post] (the widths) is solved on the spot when it is immediate *)
+  Local Ltac wsolve := first
+    [ solve [unfold wacc_ok; constructor]
+    | solve [unfold wacc_ok; constructor; [|constructor]; intros morew w0 Hin; cbn [fst snd] in Hin;
+             match goal with Hwtab : name_ok _ _ _ |- _ => discriminate (Hwtab w0 Hin) end] ].
+  Local Ltac post_split :=
+    split; [|split; [|split; [|split; [|split; [|split; [|split; [|split; [|try wsolve]]]]]]]].
 
   (* ---- HashmapAug: a node of the schema and what the visit of it yields (the pair, the extra) ---- *)
   Definition ev_rel (n : nat) (vf xf : fty) (ev : aug_ev) (dd : option (Z * pv) * pv) : Prop :=
@@ -1042,7 +1064,7 @@ Section Correct.
     unfold field_ok.
     induction f as [w0|m0|m0|w0| | |w0|w0|w0| |m0|m0| | | | | |T a|T a|g IH|dn vf IHvf|cv
                     |fl IHl fr IHr| |hn hvf IHh|vn vvf IHv|an avf IHa axf IHx|an avf IHa axf IHx];
-      intros nm look c bits refs Hwf Hwt Henc sid n ns acc k ss env w tb tr fuel Hctx Hget Hn Hw Hsid Hfuel;
+      intros wtab nm look c bits refs Hwtab Hwf Hwt Henc sid n ns acc k ss env w tb tr fuel Hctx Hget Hn Hw Hsid Hfuel;
       try (solve [eapply field_prim; [reflexivity|eassumption..]]).
     - (* FMaybeCell *)
       cbn [need_field] in *. cbn [compile_field]. cbn [wt_field] in Hwt. cbn [enc_field ok_bits] in Henc.
@@ -1146,8 +1168,9 @@ Section Correct.
         inversion Henc; subst bits refs; clear Henc.
         pose proof (wt_maybe_some _ _ _ g _ c Hx Hwt) as Hwt'.
         set (ssA := set_slice ss sid (ord (mkS (b ++ tb) (r ++ tr)))).
-        destruct (IH nm look c b r Hwf Hwt' Hinner sid (S n) ns acc k ssA (env ++ [PBool true]) (w ++ [1])
-                     tb tr (fuel - 1 - 1) Hctx) as (c1 & ss' & vals & ws & acc' & ns' & Hrun & Hc & Hg & Hfr & Hlen & Hns & Hnames & Hev).
+        assert (Hwg : name_ok wtab nm g) by (intros w0 Hin; discriminate (Hwtab w0 Hin)).
+        destruct (IH wtab nm look c b r Hwg Hwf Hwt' Hinner sid (S n) ns acc k ssA (env ++ [PBool true]) (w ++ [1])
+                     tb tr (fuel - 1 - 1) Hctx) as (c1 & ss' & vals & ws & acc' & ns' & Hrun & Hc & Hg & Hfr & Hlen & Hns & Hnames & Hev & Hwa).
         { apply get_set_same. }
         { rewrite app_length. cbn. lia. }
         { rewrite app_length. cbn. lia. }
@@ -1170,6 +1193,7 @@ Section Correct.
         * exact Hnames.
         * eapply Forall_impl; [|exact Hev]. intros p Hp more. cbn beta in Hp.
           specialize (Hp more). rewrite <- !app_assoc in Hp. exact Hp.
+        * rewrite <- app_assoc in Hwa. exact Hwa.
     - (* FDict *)
       cbn [need_field] in *. cbn [compile_field]. cbn [wt_field] in Hwt. cbn [enc_field] in Henc.
       cbn [wf_fty] in Hwf. apply andb_prop in Hwf. destruct Hwf as [Hwf Hwfv].
@@ -1237,8 +1261,9 @@ Section Correct.
         destruct (ENC fr (look nm)) as [[b r]|e] eqn:Hinner; cbn [bind] in Henc; [|discriminate].
         inversion Henc; subst bits refs; clear Henc.
         set (ssA := set_slice ss sid (ord (mkS (b ++ tb) (r ++ tr)))).
-        destruct (IHr nm look c b r Hwfr Hwt Hinner sid (S n) ns acc k ssA (env ++ [PBool true]) (w ++ [1])
-                     tb tr (fuel - 1 - 1) Hctx) as (c1 & ss' & vals & ws & acc' & ns' & Hrun & Hc & Hg & Hfr & Hlen & Hns & Hnames & Hev).
+        assert (Hwg : name_ok wtab nm fr) by (intros w0 Hin; discriminate (Hwtab w0 Hin)).
+        destruct (IHr wtab nm look c b r Hwg Hwfr Hwt Hinner sid (S n) ns acc k ssA (env ++ [PBool true]) (w ++ [1])
+                     tb tr (fuel - 1 - 1) Hctx) as (c1 & ss' & vals & ws & acc' & ns' & Hrun & Hc & Hg & Hfr & Hlen & Hns & Hnames & Hev & Hwa).
         { apply get_set_same. }
         { rewrite app_length. cbn. lia. }
         { rewrite app_length. cbn. lia. }
@@ -1261,12 +1286,14 @@ Section Correct.
         * exact Hnames.
         * eapply Forall_impl; [|exact Hev]. intros p Hp more. cbn beta in Hp.
           specialize (Hp more). rewrite <- !app_assoc in Hp. exact Hp.
+        * rewrite <- app_assoc in Hwa. exact Hwa.
       + (* the left alternative *)
         destruct (ENC fl (look nm)) as [[b r]|e] eqn:Hinner; cbn [bind] in Henc; [|discriminate].
         inversion Henc; subst bits refs; clear Henc.
         set (ssA := set_slice ss sid (ord (mkS (b ++ tb) (r ++ tr)))).
-        destruct (IHl nm look c b r Hwfl Hwt Hinner sid (S n) ns acc k ssA (env ++ [PBool false]) (w ++ [1])
-                     tb tr (fuel - 1 - 1) Hctx) as (c1 & ss' & vals & ws & acc' & ns' & Hrun & Hc & Hg & Hfr & Hlen & Hns & Hnames & Hev).
+        assert (Hwg : name_ok wtab nm fl) by (intros w0 Hin; discriminate (Hwtab w0 Hin)).
+        destruct (IHl wtab nm look c b r Hwg Hwfl Hwt Hinner sid (S n) ns acc k ssA (env ++ [PBool false]) (w ++ [1])
+                     tb tr (fuel - 1 - 1) Hctx) as (c1 & ss' & vals & ws & acc' & ns' & Hrun & Hc & Hg & Hfr & Hlen & Hns & Hnames & Hev & Hwa).
         { apply get_set_same. }
         { rewrite app_length. cbn. lia. }
         { rewrite app_length. cbn. lia. }
@@ -1289,6 +1316,7 @@ Section Correct.
         * exact Hnames.
         * eapply Forall_impl; [|exact Hev]. intros p Hp more. cbn beta in Hp.
           specialize (Hp more). rewrite <- !app_assoc in Hp. exact Hp.
+        * rewrite <- app_assoc in Hwa. exact Hwa.
     - (* FRest: the value is what follows; nothing is consumed *)
       cbn [need_field] in *. cbn [compile_field]. cbn [wt_field] in Hwt.
       destruct c as [[tb' tr']|]; [|contradiction]. cbn [ctx_ok] in Hctx. inversion Hctx; subst tb' tr'.
@@ -1521,25 +1549,34 @@ Section Correct.
   Qed.
 
   (* sequencing two segments read from the same sub-slice *)
-  Lemma post_seq t1 k1 k names1 names2 look sid n ns acc ss env w tb1 tr1 tb tr fuel b1 b2 :
-    acc_ok look env acc ->
-    post t1 k1 names1 look sid n ns acc ss env w tb1 tr1 fuel b1 ->
+  Lemma wacc_ok_ext wtab W acc x : wacc_ok wtab W acc -> wacc_ok wtab (W ++ x) acc.
+  Proof.
+    unfold wacc_ok. intros H. eapply Forall_impl; [|exact H]. intros p Hp morew. cbn beta in Hp.
+    rewrite <- app_assoc. apply Hp.
+  Qed.
+
+  Lemma post_seq wtab t1 k1 k names1 names2 look sid n ns acc ss env w tb1 tr1 tb tr fuel b1 b2 :
+    acc_ok look env acc -> wacc_ok wtab w acc ->
+    post wtab t1 k1 names1 look sid n ns acc ss env w tb1 tr1 fuel b1 ->
     (forall c ss1 vals1 ws1 acc1 ns1,
         c <= b1 -> get_slice ss1 sid = Ok (ord (mkS tb1 tr1)) ->
         List.length ws1 = List.length vals1 -> ns <= ns1 ->
         map fst acc1 = names1 -> acc_ok look (env ++ vals1) (acc ++ acc1) ->
-        post (k1 (n + List.length vals1) ns1 (acc ++ acc1)) k names2 look sid (n + List.length vals1) ns1
+        wacc_ok wtab (w ++ ws1) (acc ++ acc1) ->
+        post wtab (k1 (n + List.length vals1) ns1 (acc ++ acc1)) k names2 look sid (n + List.length vals1) ns1
              (acc ++ acc1) ss1 (env ++ vals1) (w ++ ws1) tb tr (fuel - c) b2) ->
-    post t1 k (names1 ++ names2) look sid n ns acc ss env w tb tr fuel (b1 + b2).
+    post wtab t1 k (names1 ++ names2) look sid n ns acc ss env w tb tr fuel (b1 + b2).
   Proof.
-    intros Hacc (c1 & ss1 & vals1 & ws1 & acc1 & ns1 & Hrun1 & Hc1 & Hg1 & Hfr1 & Hlen1 & Hns1 & Hnm1 & Hev1) H2.
+    intros Hacc Hwacc (c1 & ss1 & vals1 & ws1 & acc1 & ns1 & Hrun1 & Hc1 & Hg1 & Hfr1 & Hlen1 & Hns1 & Hnm1 & Hev1 & Hw1) H2.
     assert (Hacc1 : acc_ok look (env ++ vals1) (acc ++ acc1)).
     { unfold acc_ok. apply Forall_app. split.
       - apply acc_ok_ext. exact Hacc.
       - eapply Forall_impl; [|exact Hev1]. intros p Hp more. cbn beta in Hp.
         specialize (Hp more). rewrite app_assoc in Hp. exact Hp. }
-    destruct (H2 c1 ss1 vals1 ws1 acc1 ns1 Hc1 Hg1 Hlen1 Hns1 Hnm1 Hacc1)
-      as (c2 & ss2 & vals2 & ws2 & acc2 & ns2 & Hrun2 & Hc2 & Hg2 & Hfr2 & Hlen2 & Hns2 & Hnm2 & Hev2).
+    assert (Hwacc1 : wacc_ok wtab (w ++ ws1) (acc ++ acc1)).
+    { unfold wacc_ok. apply Forall_app. split; [apply wacc_ok_ext; exact Hwacc|exact Hw1]. }
+    destruct (H2 c1 ss1 vals1 ws1 acc1 ns1 Hc1 Hg1 Hlen1 Hns1 Hnm1 Hacc1 Hwacc1)
+      as (c2 & ss2 & vals2 & ws2 & acc2 & ns2 & Hrun2 & Hc2 & Hg2 & Hfr2 & Hlen2 & Hns2 & Hnm2 & Hev2 & Hw2).
     exists (c1 + c2), ss2, (vals1 ++ vals2), (ws1 ++ ws2), (acc1 ++ acc2), ns2.
     post_split.
     - rewrite Hrun1, Hrun2. rewrite <- !app_assoc. rewrite app_length.
@@ -1556,11 +1593,14 @@ Section Correct.
         specialize (Hp (vals2 ++ more)). rewrite <- !app_assoc. exact Hp.
       + eapply Forall_impl; [|exact Hev2]. intros p Hp more. cbn beta in Hp.
         specialize (Hp more). rewrite <- !app_assoc in Hp. rewrite <- !app_assoc. exact Hp.
+    - unfold wacc_ok. apply Forall_app. split.
+      + rewrite app_assoc. apply wacc_ok_ext. exact Hw1.
+      + rewrite app_assoc. exact Hw2.
   Qed.
 
-  Lemma post_nil k look sid n ns acc ss env w tb tr fuel :
+  Lemma post_nil wtab k look sid n ns acc ss env w tb tr fuel :
     get_slice ss sid = Ok (ord (mkS tb tr)) ->
-    post (k n ns acc) k [] look sid n ns acc ss env w tb tr fuel 0.
+    post wtab (k n ns acc) k [] look sid n ns acc ss env w tb tr fuel 0.
   Proof.
     intros Hget. exists 0, ss, [], [], [], ns.
     post_split; try (reflexivity || lia || assumption || constructor).
@@ -1570,22 +1610,24 @@ Section Correct.
   Local Notation WTS := (wt_fields ch (wt_type ch st d) (rest_type ch st)).
   Local Notation ENCS := (enc_fields ch (enc_type ch st d) (rest_type ch st)).
 
-  Lemma fields_correct : forall fs look bits refs,
+  Lemma fields_correct : forall wtab fs look bits refs,
+    Forall (fun p => name_ok wtab (fst p) (snd p)) fs ->
     forallb (fun p => wf_fty (snd p)) fs = true -> WTS look fs ->
     ENCS look fs = Ok (bits, refs) ->
     forall sid n ns acc k ss env w tb tr fuel,
       get_slice ss sid = Ok (ord (mkS (bits ++ tb) (refs ++ tr))) ->
       List.length env = n -> List.length w = n -> sid < ns -> need_fields (need_type st d) fs <= fuel ->
-      acc_ok look env acc ->
-      post (compile_fields fs sid n ns acc k) k (map fst fs) look sid n ns acc ss env w tb tr fuel
+      acc_ok look env acc -> wacc_ok wtab w acc ->
+      post wtab (compile_fields fs sid n ns acc k) k (map fst fs) look sid n ns acc ss env w tb tr fuel
            (need_fields (need_type st d) fs).
   Proof.
     induction fs as [|[nm f] r IH];
-      intros look bits refs Hwf Hwt Henc sid n ns acc k ss env w tb tr fuel Hget Hn Hw Hsid Hfuel Hacc.
+      intros look bits refs Hnames Hwf Hwt Henc sid n ns acc k ss env w tb tr fuel Hget Hn Hw Hsid Hfuel Hacc Hwacc.
     - cbn [enc_fields] in Henc. inversion Henc; subst bits refs.
       cbn [compile_fields map need_fields fold_right]. apply post_nil. exact Hget.
     - cbn [enc_fields] in Henc. cbn [forallb snd] in Hwf. apply andb_prop in Hwf. destruct Hwf as [Hwf1 Hwf2].
       cbn [wt_fields] in Hwt. destruct Hwt as [Hwt1 Hwt2].
+      pose proof (Forall_inv Hnames) as Hnm0. pose proof (Forall_inv_tail Hnames) as Hnmr. cbn [fst snd] in Hnm0.
       destruct (ENC f (look nm)) as [[b1 r1]|e] eqn:H1; cbn [bind] in Henc; [|discriminate].
       destruct (ENCS look r) as [[b2 r2]|e] eqn:H2; cbn [bind] in Henc; [|discriminate].
       inversion Henc; subst bits refs; clear Henc. rewrite <- !app_assoc in Hget.
@@ -1594,8 +1636,9 @@ Section Correct.
         with (NEED f + need_fields (need_type st d) r) in *.
       eapply post_seq.
       + exact Hacc.
+      + exact Hwacc.
       + eapply (field_correct f); try eassumption; [exact I|lia].
-      + intros c ss1 vals1 ws1 acc1 ns1 Hc Hg1 Hlen1 Hns1 Hnm1 Hacc1.
+      + intros c ss1 vals1 ws1 acc1 ns1 Hc Hg1 Hlen1 Hns1 Hnm1 Hacc1 Hwacc1.
         eapply IH; try eassumption; try (rewrite app_length; lia); lia.
   Qed.
 
@@ -1678,6 +1721,16 @@ Section Correct.
     | INamedHex nm hexnm w =>
         DOp sid (OBytes w) (k1 (S n) ns (acc ++ [(nm, EVar n); (hexnm, EHex (EVar n))]))
     | IGuard op a b => DGuard op (gexpr_of acc a) (gexpr_of acc b) DFail (k1 n ns acc)
+    | ICond c nm f =>
+        DIf (fst (cond_test acc c)) (snd (cond_test acc c)) (k1 n ns (acc ++ [(nm, ENone)]))
+            (compile_field f nm sid n ns acc k1)
+    | IRefParam nm T src =>
+        DOp sid (ORef ns)
+          (DIf (var_of acc src) 0
+             (DOp ns (OCall T [0%Z]) (k1 (S (S n)) (S ns) (acc ++ [(nm, EVar (S n))])))
+             (DOp ns (OCall T [1%Z]) (k1 (S (S n)) (S ns) (acc ++ [(nm, EVar (S n))]))))
+    | INamedConst nm c bits =>
+        DOp sid (chunk_op c) (check_bits n 0 bits (k1 (S n) ns (acc ++ [(nm, EVar n)])))
     end.
 
   (* the integer a constraint operand denotes at run time *)
@@ -1716,6 +1769,107 @@ Section Correct.
     destruct (assoc_expr nm acc) as [i|z|[|]|s|l| |cls fs|l|e|e| |]; reflexivity.
   Qed.
 
+  (* a checked constant, kept: the value loaded is the one the constant denotes *)
+  Lemma chunk_load_val c bits k sid ss env w tb tr fuel :
+    chunk_ok c bits = true -> get_slice ss sid = Ok (ord (mkS (bits ++ tb) tr)) -> 1 <= fuel ->
+    run tbl fuel (DOp sid (chunk_op c) k) ss env w
+    = run tbl (fuel - 1) k (set_slice ss sid (ord (mkS tb tr))) (env ++ [chunk_val c bits]) (w ++ [chunk_width c])
+    /\ bits_of_pv (chunk_val c bits) (chunk_width c) = bits.
+  Proof.
+    unfold chunk_ok. intros Hok Hget Hfuel.
+    apply andb_prop in Hok. destruct Hok as [Hok Hview]. apply andb_prop in Hok. destruct Hok as [Hw1 Hlen].
+    apply list_beq_eq in Hview. apply Nat.leb_le in Hw1. apply Nat.eqb_eq in Hlen.
+    destruct c as [n|n|k0|]; cbn [chunk_op chunk_width chunk_view chunk_val] in *.
+    - split; [|reflexivity].
+      rewrite (run_prim tbl fuel sid (OBits n) k ss env w _ (PBits bits) (mkS tb tr) Hfuel Hget).
+      + reflexivity.
+      + cbn [prim_load ts_s]. subst n. rewrite load_bits_app. reflexivity.
+    - split.
+      + rewrite (run_prim tbl fuel sid (OUint n) k ss env w _ (PInt (Z.of_N (of_bits bits))) (mkS tb tr) Hfuel Hget).
+        * reflexivity.
+        * cbn [prim_load ts_s]. rewrite load_uint_raw; [reflexivity| |exact Hlen].
+          intros ->. cbn in Hlen. lia.
+      + cbn [bits_of_pv]. rewrite N2Z.id. exact Hview.
+    - split; [|exact Hview].
+      rewrite (run_prim tbl fuel sid (OBytes k0) k ss env w _ (PBytes (bits_to_bytes bits)) (mkS tb tr) Hfuel Hget).
+      + reflexivity.
+      + cbn [prim_load ts_s]. unfold s_load_bytes, s_preload_bytes.
+        rewrite s_skip_app by lia. cbn [bind s_bits]. rewrite firstn_app_exact by lia. reflexivity.
+    - destruct bits as [|x [|y bits']]; cbn [List.length] in Hlen; try lia. cbn [hd].
+      split; [|reflexivity].
+      rewrite (run_prim tbl fuel sid OBit k ss env w _ (PBool x) (mkS tb tr) Hfuel Hget); reflexivity.
+  Qed.
+
+  (* ---- the table of condition sources ---- *)
+  Lemma name_wok_ok wtab nm f : name_wok wtab nm f = true -> name_ok wtab nm f.
+  Proof.
+    unfold name_wok, name_ok. rewrite forallb_forall. intros H w0 Hin. specialize (H (nm, w0) Hin).
+    cbn [fst snd] in H. rewrite String.eqb_refl in H. exact H.
+  Qed.
+
+  Lemma name_free_ok wtab nm : name_free wtab nm = true -> forall w0, ~ In (nm, w0) wtab.
+  Proof.
+    unfold name_free. rewrite forallb_forall. intros H w0 Hin. specialize (H (nm, w0) Hin).
+    cbn [fst] in H. rewrite String.eqb_refl in H. discriminate.
+  Qed.
+
+  Lemma name_free_name_ok wtab nm f : name_free wtab nm = true -> name_ok wtab nm f.
+  Proof. intros H w0 Hin. exfalso. exact (name_free_ok wtab nm H w0 Hin). Qed.
+
+  Lemma wacc_free wtab W acc' : Forall (fun p => name_free wtab (fst p) = true) acc' -> wacc_ok wtab W acc'.
+  Proof.
+    unfold wacc_ok. intros H. eapply Forall_impl; [|exact H]. intros p Hp morew w0 Hin.
+    exfalso. exact (name_free_ok wtab (fst p) Hp w0 Hin).
+  Qed.
+
+  Lemma to_bits_low w n : 1 <= w -> nth (w - 1) (to_bits w n) false = N.testbit n 0.
+  Proof.
+    intros Hw. rewrite to_bits_enc. unfold enc.
+    rewrite (nth_indep _ false (Z.testbit (Z.of_N n) (Z.of_nat (w - 1 - 0)))) by (rewrite map_length, seq_length; lia).
+    rewrite (map_nth (fun i => Z.testbit (Z.of_N n) (Z.of_nat (w - 1 - i)))).
+    rewrite seq_nth by lia. replace (w - 1 - (0 + (w - 1))) with 0 by lia.
+    change (Z.of_nat 0) with (Z.of_N 0). apply Z.testbit_of_N.
+  Qed.
+
+  Lemma cond_src_in wtab s w0 :
+    existsb (fun p : string * nat => String.eqb (fst p) s && (snd p =? w0)) wtab = true -> In (s, w0) wtab.
+  Proof.
+    intros H. apply existsb_exists in H. destruct H as ([s' w'] & Hin & H). cbn [fst snd] in H.
+    apply andb_prop in H. destruct H as [H1 H2]. apply String.eqb_eq in H1. apply Nat.eqb_eq in H2. subst. exact Hin.
+  Qed.
+
+  (* the bit a condition tests is the one its source holds *)
+  Lemma cond_test_ok wtab look env w acc c :
+    acc_ok look env acc -> wacc_ok wtab w acc -> cond_ok (map fst acc) wtab c = true -> cond_src_ok look c ->
+    nth (snd (cond_test acc c))
+        (bits_of_pv (nth (fst (cond_test acc c)) env PNone) (nth (fst (cond_test acc c)) w 1)) false
+    = cond_holds look c /\ fst (cond_test acc c) < List.length env.
+  Proof.
+    intros Hacc Hwacc Hok Hsrc.
+    assert (Hkey : forall s w0, existsb (String.eqb s) (map fst acc) = true -> In (s, w0) wtab ->
+              exists i, var_of acc s = i /\ nth i env PNone = look s /\ nth i w 1 = w0).
+    { intros s w0 Hb Hin. pose proof (assoc_expr_in s acc Hb) as Hin2.
+      unfold wacc_ok in Hwacc. rewrite Forall_forall in Hwacc. destruct (Hwacc _ Hin2 [] w0 Hin) as (i & He & Hwd).
+      cbn [snd] in He. rewrite app_nil_r in Hwd.
+      unfold acc_ok in Hacc. rewrite Forall_forall in Hacc. destruct (Hacc _ Hin2 []) as [Hev _].
+      cbn [fst snd] in Hev. rewrite He in Hev. cbn [eval] in Hev. rewrite app_nil_r in Hev.
+      exists i. unfold var_of. rewrite He. repeat split; [apply (Hev PNone)|exact Hwd]. }
+    destruct c as [s|s w0]; cbn [cond_ok cond_test cond_src_ok cond_holds fst snd] in *.
+    - apply andb_prop in Hok. destruct Hok as [Hb Hin]. apply cond_src_in in Hin.
+      destruct (Hkey s 1 Hb Hin) as (i & -> & Hv & _). rewrite Hv.
+      destruct (look s) eqn:Hls; try contradiction. split; [reflexivity|].
+      destruct (Nat.lt_ge_cases i (List.length env)) as [Hlt|Hge]; [exact Hlt|].
+      rewrite nth_overflow in Hv by exact Hge. discriminate.
+    - apply andb_prop in Hok. destruct Hok as [Hok Hin]. apply andb_prop in Hok. destruct Hok as [Hb Hw0].
+      apply Nat.leb_le in Hw0. apply cond_src_in in Hin.
+      destruct (Hkey s w0 Hb Hin) as (i & -> & Hv & Hwd). rewrite Hv, Hwd.
+      destruct (look s) as [z| | | | | | | | | | | | | |] eqn:Hls; try contradiction. cbn [bits_of_pv]. split.
+      + rewrite to_bits_low by exact Hw0. rewrite <- (Z2N.id z) at 2 by exact Hsrc. symmetry.
+        change 0%Z with (Z.of_N 0). apply Z.testbit_of_N.
+      + destruct (Nat.lt_ge_cases i (List.length env)) as [Hlt|Hge]; [exact Hlt|].
+        rewrite nth_overflow in Hv by exact Hge. discriminate.
+  Qed.
+
   Lemma compile_items_cons it r sid n ns acc k :
     compile_items (it :: r) sid n ns acc k
     = compile_item it sid n ns acc (fun n' ns' acc' => compile_items r sid n' ns' acc' k).
@@ -1726,35 +1880,42 @@ Section Correct.
   Local Notation WTIS := (wt_items ch (wt_type ch st d) (rest_type ch st)).
   Local Notation ENCIS := (enc_items ch (enc_type ch st d) (rest_type ch st)).
 
-  Lemma item_correct it look c bits refs :
-    wf_item it = true -> WTI look c it ->
+  Lemma item_correct wtab it look c bits refs :
+    wf_item it = true -> item_wok wtab it = true -> WTI look c it ->
     ENCI look it = Ok (bits, refs) ->
     forall sid n ns acc k ss env w tb tr fuel,
       ctx_ok c tb tr ->
       get_slice ss sid = Ok (ord (mkS (bits ++ tb) (refs ++ tr))) ->
       List.length env = n -> List.length w = n -> sid < ns -> need_item (need_type st d) it <= fuel ->
-      acc_ok look env acc ->
-      match it with IGuard _ a b => gref_bound (map fst acc) a && gref_bound (map fst acc) b | _ => true end
-      = true ->
-      post (compile_item it sid n ns acc k) k (item_names it) look sid n ns acc ss env w tb tr fuel
+      acc_ok look env acc -> wacc_ok wtab w acc ->
+      match it with
+      | IGuard _ a b => gref_bound (map fst acc) a && gref_bound (map fst acc) b
+      | ICond cd _ _ => cond_ok (map fst acc) wtab cd
+      | IRefParam _ _ src => cond_ok (map fst acc) wtab (CBit src)
+      | _ => true
+      end = true ->
+      post wtab (compile_item it sid n ns acc k) k (item_names it) look sid n ns acc ss env w tb tr fuel
            (need_item (need_type st d) it).
   Proof.
-    intros Hwf Hwt Henc sid n ns acc k ss env w tb tr fuel Hctx Hget Hn Hw Hsid Hfuel Hacc Hbound.
-    destruct it as [nm f|fs|c0 cbits|nm hexnm wd|op ga gb];
-      cbn [wf_item wt_item enc_item compile_item item_names need_item] in *.
-    - eapply (field_correct f); eassumption.
+    intros Hwf Hwok Hwt Henc sid n ns acc k ss env w tb tr fuel Hctx Hget Hn Hw Hsid Hfuel Hacc Hwacc Hbound.
+    destruct it as [nm f|fs|c0 cbits|nm hexnm wd|op ga gb|cd nm f|nm T src|nm c0 cbits];
+      cbn [wf_item wt_item enc_item compile_item item_names need_item item_wok] in *.
+    - eapply (field_correct f); try eassumption. apply name_wok_ok. exact Hwok.
     - destruct (ENCS look fs) as [[b r]|e] eqn:Hinner; cbn [bind] in Henc; [|discriminate].
       inversion Henc; subst bits refs; clear Henc.
       set (ssA := set_slice (set_slice ss sid (ord (mkS tb tr))) ns (ord (mkS b r))).
-      destruct (fields_correct fs look b r Hwf Hwt Hinner ns (S n) (S ns) acc k ssA
+      assert (Hnok : Forall (fun p => name_ok wtab (fst p) (snd p)) fs).
+      { apply Forall_forall. intros p Hp. rewrite forallb_forall in Hwok. apply name_wok_ok. exact (Hwok p Hp). }
+      destruct (fields_correct wtab fs look b r Hnok Hwf Hwt Hinner ns (S n) (S ns) acc k ssA
                   (env ++ [PCell (Cell ty_ordinary b r)]) (w ++ [1]) [] [] (fuel - 1))
-        as (c1 & ss' & vals & ws & acc' & ns' & Hrun & Hc & Hg & Hfr & Hlen & Hns & Hnames & Hev).
+        as (c1 & ss' & vals & ws & acc' & ns' & Hrun & Hc & Hg & Hfr & Hlen & Hns & Hnames & Hev & Hwa).
       { rewrite !app_nil_r. apply get_set_same. }
       { rewrite app_length. cbn. lia. }
       { rewrite app_length. cbn. lia. }
       { lia. }
       { lia. }
       { apply acc_ok_ext. exact Hacc. }
+      { apply wacc_ok_ext. exact Hwacc. }
       exists (1 + c1), ss', (PCell (Cell ty_ordinary b r) :: vals), (1 :: ws), acc', ns'.
       post_split.
       + rewrite (run_ref tbl fuel sid ns _ ss env w _ (Cell ty_ordinary b r) (mkS tb tr))
@@ -1771,6 +1932,7 @@ Section Correct.
       + exact Hnames.
       + eapply Forall_impl; [|exact Hev]. intros p Hp more. cbn beta in Hp.
         specialize (Hp more). rewrite <- !app_assoc in Hp. exact Hp.
+      + rewrite <- app_assoc in Hwa. exact Hwa.
     - cbn [ok_bits] in Henc. inversion Henc; subst bits refs; clear Henc. cbn [app] in Hget.
       destruct (chunk_load c0 cbits (check_bits n 0 cbits (k (S n) ns acc)) sid ss env w tb tr fuel Hwf Hget)
         as (val & Hrun & Hview); [lia|].
@@ -1809,6 +1971,8 @@ Section Correct.
       + constructor; [|constructor; [|constructor]]; intros more; cbn [app]; subst n.
         * apply entry_var. rewrite nth_middle. symmetry. exact Hx.
         * apply (entry_hex _ _ _ _ bs); [apply nth_middle|exact Hhex].
+      + apply wacc_free. cbn [forallb] in Hwok. apply andb_prop in Hwok. destruct Hwok as [Hf1 Hf2].
+        apply andb_prop in Hf2. destruct Hf2 as [Hf2 _]. repeat constructor; assumption.
     - (* IGuard *)
       cbn [ok_bits] in Henc. inversion Henc; subst bits refs; clear Henc.
       apply andb_prop in Hbound. destruct Hbound as [Hba Hbb].
@@ -1825,25 +1989,126 @@ Section Correct.
       + lia.
       + reflexivity.
       + constructor.
+    - (* ICond: the bit of the source decides *)
+      destruct Hwt as [Hsrc Hwt].
+      cbn [forallb] in Hwok. apply andb_prop in Hwok. destruct Hwok as [Hfree _].
+      destruct (cond_test_ok wtab look env w acc cd Hacc Hwacc Hbound Hsrc) as [Htest _].
+      destruct (cond_holds look cd) eqn:Hcd.
+      + destruct (field_correct f wtab nm look c bits refs (name_free_name_ok wtab nm f Hfree) Hwf Hwt Henc
+                    sid n ns acc k ss env w tb tr (fuel - 1) Hctx Hget Hn Hw Hsid ltac:(lia))
+          as (c1 & ss' & vals & ws & acc' & ns' & Hrun & Hc & Hg & Hfr & Hlen & Hns & Hnames & Hev & Hwa).
+        exists (1 + c1), ss', vals, ws, acc', ns'.
+        post_split; try assumption; try lia.
+        rewrite (run_if tbl fuel _ _ _ _ ss env w true) by (lia || exact Htest).
+        rewrite Hrun. replace (fuel - 1 - c1) with (fuel - (1 + c1)) by lia. reflexivity.
+      + cbn [ok_bits] in Henc. inversion Henc; subst bits refs; clear Henc.
+        exists 1, ss, [], [], [(nm, ENone)], ns.
+        post_split.
+        * rewrite (run_if tbl fuel _ _ _ _ ss env w false) by (lia || exact Htest).
+          cbn [List.length]. rewrite !app_nil_r, Nat.add_0_r. reflexivity.
+        * lia.
+        * exact Hget.
+        * intros j _ _. reflexivity.
+        * reflexivity.
+        * lia.
+        * reflexivity.
+        * constructor; [|constructor]. intros more. apply entry_none. exact Hwt.
+        * apply wacc_free. repeat constructor. exact Hfree.
+    - (* IRefParam: the reference, then the parser the source bit selects *)
+      destruct Hwt as [Hsrc Hwt]. cbv zeta in Hwt.
+      cbn [forallb] in Hwok. apply andb_prop in Hwok. destruct Hwok as [Hfree _].
+      destruct (cond_test_ok wtab look env w acc (CBit src) Hacc Hwacc Hbound Hsrc) as [Htest Hlt].
+      cbn [cond_test fst snd] in Htest, Hlt.
+      set (a := [if cond_holds look (CBit src) then 1%Z else 0%Z]) in *.
+      destruct (enc_type ch st d T a (look nm)) as [[b r]|e] eqn:Hinner; cbn [bind] in Henc; [|discriminate].
+      inversion Henc; subst bits refs; clear Henc.
+      destruct (rest_type ch st T a (look nm)) as [rb rr] eqn:Hrest. cbn [fst snd] in *.
+      destruct (Hty T a (Some (rb, rr)) (look nm) b r Hwt Hinner) as (tree & Hlk & Hrun).
+      assert (Hneed : need_type st d T a <= fuel - 1 - 1 - 1).
+      { unfold a. destruct (cond_holds look (CBit src)); lia. }
+      destruct (Hrun (fuel - 1 - 1 - 1) rb rr eq_refl Hneed) as (ss1 & Hrun1 & Hget1).
+      set (cc := Cell ty_ordinary (b ++ rb) (r ++ rr)) in *.
+      set (ssA := set_slice (set_slice ss sid (ord (mkS tb tr))) ns (ord (mkS (b ++ rb) (r ++ rr)))).
+      exists 3, (set_slice ssA ns (ord (mkS rb rr))),
+             [PCell cc; look nm], [1; 1], [(nm, EVar (S n))], (S ns).
+      post_split.
+      + rewrite (run_ref tbl fuel sid ns _ ss env w _ cc (mkS tb tr))
+          by (lia || eassumption || reflexivity).
+        cbn [ts_ty cell_slice cc]. fold ssA.
+        assert (Htest' : nth 0 (bits_of_pv (nth (var_of acc src) (env ++ [PCell cc]) PNone)
+                                           (nth (var_of acc src) (w ++ [1]) 1)) false
+                         = cond_holds look (CBit src)).
+        { rewrite (app_nth1 env) by exact Hlt. rewrite (app_nth1 w) by lia. exact Htest. }
+        rewrite (run_if tbl (fuel - 1) _ 0 _ _ ssA _ _ (cond_holds look (CBit src))) by (lia || exact Htest').
+        assert (Hcall : forall aa, aa = a ->
+                  run tbl (fuel - 1 - 1) (DOp ns (OCall T aa) (k (S (S n)) (S ns) (acc ++ [(nm, EVar (S n))])))
+                      ssA (env ++ [PCell cc]) (w ++ [1])
+                  = run tbl (fuel - 1 - 1 - 1) (k (S (S n)) (S ns) (acc ++ [(nm, EVar (S n))]))
+                      (set_slice ssA ns (ord (mkS rb rr))) ((env ++ [PCell cc]) ++ [look nm]) ((w ++ [1]) ++ [1])).
+        { intros aa ->.
+          apply (run_call tbl (fuel - 1 - 1) ns T a _ ssA _ _ (ord (mkS (b ++ rb) (r ++ rr))) tree (look nm) ss1
+                   (ord (mkS rb rr))); [lia|apply get_set_same|assumption|assumption|assumption]. }
+        unfold a in Hcall.
+        destruct (cond_holds look (CBit src)); rewrite (Hcall _ eq_refl);
+          rewrite <- !app_assoc; cbn [List.length app];
+          replace (n + 2) with (S (S n)) by lia; replace (fuel - 1 - 1 - 1) with (fuel - 3) by lia; reflexivity.
+      + lia.
+      + rewrite get_set_other by lia. unfold ssA. rewrite get_set_other by lia. apply get_set_same.
+      + intros j Hj Hlt2. rewrite get_set_other by lia. unfold ssA. rewrite get_set_other by lia.
+        apply get_set_other. exact Hj.
+      + reflexivity.
+      + lia.
+      + reflexivity.
+      + constructor; [|constructor]. intros more. apply entry_var. cbn [app]. subst n.
+        change (PCell cc :: look nm :: more) with ([PCell cc] ++ look nm :: more).
+        rewrite app_assoc. replace (S (List.length env)) with (List.length (env ++ [PCell cc]))
+          by (rewrite app_length; cbn; lia).
+        rewrite nth_middle. reflexivity.
+      + apply wacc_free. repeat constructor. exact Hfree.
+    - (* INamedConst *)
+      cbn [ok_bits] in Henc. inversion Henc; subst bits refs; clear Henc. cbn [app] in Hget.
+      cbn [forallb] in Hwok. apply andb_prop in Hwok. destruct Hwok as [Hfree _].
+      destruct (chunk_load_val c0 cbits (check_bits n 0 cbits (k (S n) ns (acc ++ [(nm, EVar n)]))) sid ss env w tb tr fuel
+                  Hwf Hget) as (Hrun & Hview); [lia|].
+      exists (S (List.length cbits)), (set_slice ss sid (ord (mkS tb tr))), [chunk_val c0 cbits], [chunk_width c0],
+             [(nm, EVar n)], ns.
+      post_split.
+      + rewrite Hrun. rewrite (check_bits_ok cbits [] n 0 _ _ (env ++ [chunk_val c0 cbits]) (w ++ [chunk_width c0]) (fuel - 1)).
+        * cbn [List.length]. replace (n + 1) with (S n) by lia.
+          replace (fuel - 1 - List.length cbits) with (fuel - S (List.length cbits)) by lia. reflexivity.
+        * rewrite <- Hn at 1. rewrite <- Hw. rewrite !nth_middle. exact Hview.
+        * reflexivity.
+        * lia.
+      + lia.
+      + apply get_set_same.
+      + intros j Hj _. apply get_set_other. exact Hj.
+      + reflexivity.
+      + lia.
+      + reflexivity.
+      + constructor; [|constructor]. intros more. apply entry_var. cbn [app]. subst n.
+        rewrite nth_middle. symmetry. exact Hwt.
+      + apply wacc_free. repeat constructor. exact Hfree.
   Qed.
 
-  Lemma items_correct : forall its look c bits refs,
-    forallb wf_item its = true -> WTIS look c its ->
+  Lemma items_correct : forall wtab its look c bits refs,
+    forallb wf_item its = true -> wtab_ok wtab its = true -> WTIS look c its ->
     ENCIS look its = Ok (bits, refs) ->
     forall sid n ns acc k ss env w tb tr fuel,
       ctx_ok c tb tr ->
       get_slice ss sid = Ok (ord (mkS (bits ++ tb) (refs ++ tr))) ->
       List.length env = n -> List.length w = n -> sid < ns -> need_items (need_type st d) its <= fuel ->
-      acc_ok look env acc -> guards_bound (map fst acc) its = true ->
-      post (compile_items its sid n ns acc k) k (items_names its) look sid n ns acc ss env w tb tr fuel
+      acc_ok look env acc -> wacc_ok wtab w acc ->
+      guards_bound (map fst acc) its = true -> conds_ok (map fst acc) wtab its = true ->
+      post wtab (compile_items its sid n ns acc k) k (items_names its) look sid n ns acc ss env w tb tr fuel
            (need_items (need_type st d) its).
   Proof.
     induction its as [|it r IH];
-      intros look c bits refs Hwf Hwt Henc sid n ns acc k ss env w tb tr fuel Hctx Hget Hn Hw Hsid Hfuel
-             Hacc Hgb.
+      intros look c bits refs Hwf Hwok Hwt Henc sid n ns acc k ss env w tb tr fuel Hctx Hget Hn Hw Hsid Hfuel
+             Hacc Hwacc Hgb Hcb.
     - cbn [enc_items] in Henc. inversion Henc; subst bits refs.
       cbn [compile_items items_names flat_map need_items fold_right]. apply post_nil. exact Hget.
     - cbn [enc_items] in Henc. cbn [forallb] in Hwf. apply andb_prop in Hwf. destruct Hwf as [Hwf1 Hwf2].
+      unfold wtab_ok in Hwok. cbn [forallb] in Hwok. apply andb_prop in Hwok. destruct Hwok as [Hwok1 Hwok2].
       cbn [wt_items] in Hwt. destruct Hwt as [Hwt1 Hwt2].
       destruct (ENCI look it) as [[b1 r1]|e] eqn:H1; cbn [bind] in Henc; [|discriminate].
       destruct (ENCIS look r) as [[b2 r2]|e] eqn:H2; cbn [bind] in Henc; [|discriminate].
@@ -1853,14 +2118,18 @@ Section Correct.
       change (need_items (need_type st d) (it :: r))
         with (need_item (need_type st d) it + need_items (need_type st d) r) in *.
       cbn [guards_bound] in Hgb. apply andb_prop in Hgb. destruct Hgb as [Hgb1 Hgb2].
+      cbn [conds_ok] in Hcb. apply andb_prop in Hcb. destruct Hcb as [Hcb1 Hcb2].
       eapply post_seq.
       + exact Hacc.
-      + eapply (item_correct it look (match r with [] => c | _ => None end)); try eassumption; [|lia].
-        destruct r as [|it2 r']; [|exact I].
-        cbn [enc_items] in H2. inversion H2; subst b2 r2. exact Hctx.
-      + intros c1 ss1 vals1 ws1 acc1 ns1 Hc Hg1 Hlen1 Hns1 Hnm1 Hacc1.
-        eapply IH; try eassumption; try (rewrite app_length; lia); try lia.
-        rewrite map_app, Hnm1. exact Hgb2.
+      + exact Hwacc.
+      + eapply (item_correct wtab it look (match r with [] => c | _ => None end)); try eassumption; try lia.
+        * destruct r as [|it2 r']; [|exact I].
+          cbn [enc_items] in H2. inversion H2; subst b2 r2. exact Hctx.
+        * destruct it; assumption.
+      + intros c1 ss1 vals1 ws1 acc1 ns1 Hc Hg1 Hlen1 Hns1 Hnm1 Hacc1 Hwacc1.
+        eapply (IH look c); try eassumption; try (rewrite app_length; lia); try lia.
+        * rewrite map_app, Hnm1. exact Hgb2.
+        * rewrite map_app, Hnm1. exact Hcb2.
   Qed.
 
   (* ---- constructors ---- *)
@@ -1896,46 +2165,59 @@ Section Correct.
 
   Lemma ctor_correct snap c v cx bits refs :
     forallb wf_item (c_items c) = true -> guards_bound [] (c_items c) = true ->
+    wtab_ok (ctor_wtab (c_items c)) (c_items c) = true -> conds_ok [] (ctor_wtab (c_items c)) (c_items c) = true ->
     (c_ret c = RNone -> c_items c = []) ->
     (match c_ret c with RSame | RSameCls _ => True | _ => False end -> exists nm f, c_items c = [INamed nm f]) ->
-    (match snap, c_ret c with Some _, RObj _ _ | None, _ => True | _, _ => False end) ->
-    ctor_matches c v = true -> wt_ctor ch (wt_type ch st d) (rest_type ch st) snap c cx v ->
+    (match snap, c_ret c with Some _, RObj _ _ | Some _, RObjAlt _ _ _ | None, _ => True | _, _ => False end) ->
+    ctor_matches ch c v = true -> wt_ctor ch (wt_type ch st d) (rest_type ch st) snap c cx v ->
     ENCIS (ctor_look c v) (c_items c) = Ok (bits, refs) ->
     forall env w tb tr fuel, ctx_ok cx tb tr -> List.length w = List.length env ->
       need_ctor (need_type st d) c <= fuel -> snap_bound snap v env ->
       finishes (compile_ctor (snap_list snap) c (List.length env))
                [(0, ord (mkS (bits ++ tb) (refs ++ tr)))] env w fuel v (ord (mkS tb tr)).
   Proof.
-    intros Hwf Hgb Hnone Hsame Hsnapret Hmatch [Hshape Hwt] Henc env w tb tr fuel Hctx Hw Hfuel Hsb.
+    intros Hwf Hgb Hwtab Hconds Hnone Hsame Hsnapret Hmatch [Hshape Hwt] Henc env w tb tr fuel Hctx Hw Hfuel Hsb.
     unfold need_ctor in Hfuel. unfold compile_ctor.
-    destruct (items_correct (c_items c) (ctor_look c v) cx bits refs Hwf Hwt Henc 0 (List.length env) 1 []
+    destruct (items_correct (ctor_wtab (c_items c)) (c_items c) (ctor_look c v) cx bits refs Hwf Hwtab Hwt Henc
+                0 (List.length env) 1 []
                 (fun _ _ acc => DRet (ret_expr (c_ret c) (snap_list snap) acc))
                 [(0, ord (mkS (bits ++ tb) (refs ++ tr)))] env w tb tr fuel)
-      as (c0 & ss' & vals & ws & acc' & ns' & Hrun & Hc & Hg & Hfr & Hlen & Hns & Hnames & Hev);
+      as (c0 & ss' & vals & ws & acc' & ns' & Hrun & Hc & Hg & Hfr & Hlen & Hns & Hnames & Hev & _);
       try (reflexivity || lia || assumption || constructor).
     exists ss'. split; [|exact Hg].
     rewrite Hrun. rewrite run_ret by lia. f_equal. f_equal. cbn [app].
     set (leaf := match get_slice ss' 0 with Ok s => PSlice (ts_s s) | Err _ => PNone end).
-    unfold ctor_look in Hev. destruct (c_ret c) as [cls consts| | |cls] eqn:Hret.
-    - cbn [ret_expr eval].
+    unfold ctor_look in Hev.
+    (* the object constructors (with or without a recorded alternative) *)
+    assert (Hobj : forall cls consts,
+              (match v with PObj _ fs => forallb (fun '(nm, cv) => cval_matchb cv (assoc nm fs)) consts = true
+                          | _ => False end) ->
+              v = PObj cls (map (fun nm => (nm, field_of v nm)) (ctor_names consts snap (c_items c))) ->
+              Forall (fun p => forall more, entry_ok (field_of v) (env ++ vals ++ more) p) acc' ->
+              eval (EObj cls (sort_by_name (map (fun '(nm, cv) => (nm, cval_expr cv)) consts ++ snap_list snap ++ acc')))
+                   (env ++ vals) leaf = v).
+    { intros cls consts Hcm Hsh Hev'. cbn [eval].
       rewrite (map_eval_look (field_of v)).
       + rewrite sort_names_fst. rewrite !map_app, Hnames.
         replace (map fst (map (fun '(nm, cv) => (nm, cval_expr cv)) consts)) with (map fst consts).
         * replace (map fst (snap_list snap)) with (snap_names snap) by (destruct snap; reflexivity).
-          symmetry. exact Hshape.
+          symmetry. exact Hsh.
         * rewrite map_map. apply map_ext. intros [nm cv]. reflexivity.
       + apply sort_Forall. apply Forall_app. split; [|apply Forall_app; split].
-        * unfold ctor_matches in Hmatch. rewrite Hret in Hmatch.
-          destruct v as [| | | | | | | | |cls' fs| | | | |]; try discriminate.
-          apply andb_prop in Hmatch. destruct Hmatch as [_ Hconsts].
-          rewrite forallb_forall in Hconsts. apply Forall_forall. intros [nm e] Hin.
+        * destruct v as [| | | | | | | | |cls' fs| | | | |]; try contradiction.
+          rewrite forallb_forall in Hcm. apply Forall_forall. intros [nm e] Hin.
           apply in_map_iff in Hin. destruct Hin as ([nm' cv] & Heq & Hin). inversion Heq; subst nm e.
-          cbn [fst snd field_of]. apply cval_match_eq. exact (Hconsts _ Hin).
+          cbn [fst snd field_of]. apply cval_match_eq. exact (Hcm _ Hin).
         * destruct snap as [snm|]; cbn [snap_list]; [|constructor].
           constructor; [|constructor]. cbn [fst snd eval]. destruct Hsb as [Hsb Hlen0].
           rewrite app_nth1 by lia. exact Hsb.
-        * eapply Forall_impl; [|exact Hev]. intros p Hp. cbn beta in Hp.
-          destruct (Hp []) as [He _]. rewrite app_nil_r in He. apply He.
+        * eapply Forall_impl; [|exact Hev']. intros p Hp. cbn beta in Hp.
+          destruct (Hp []) as [He _]. rewrite app_nil_r in He. apply He. }
+    destruct (c_ret c) as [cls consts| | |cls|cls consts alt] eqn:Hret.
+    - cbn [ret_expr]. apply Hobj; [|exact Hshape|exact Hev].
+      unfold ctor_matches in Hmatch. rewrite Hret in Hmatch.
+      destruct v as [| | | | | | | | |cls' fs| | | | |]; try discriminate.
+      apply andb_prop in Hmatch. apply Hmatch.
     - cbn [ret_expr eval]. symmetry. exact Hshape.
     - destruct (Hsame I) as (nm & f & Hits). rewrite Hits in Hnames.
       cbn [items_names flat_map item_names app] in Hnames.
@@ -1947,6 +2229,10 @@ Section Correct.
       destruct acc' as [|[nm' e] [|q acc'']]; cbn [map] in Hnames; try discriminate.
       cbn [ret_expr]. inversion Hev as [|p l Hp _]; subst.
       destruct (Hp []) as [He _]. rewrite app_nil_r in He. cbn [fst snd] in He. apply He.
+    - cbn [ret_expr]. apply Hobj; [|exact Hshape|exact Hev].
+      unfold ctor_matches in Hmatch. rewrite Hret in Hmatch.
+      destruct v as [| | | | | | | | |cls' fs| | | | |]; try discriminate.
+      apply andb_prop in Hmatch. destruct Hmatch as [Hmatch _]. apply andb_prop in Hmatch. apply Hmatch.
   Qed.
 
   (* ---- the tag tries ---- *)
@@ -2117,7 +2403,7 @@ Section Correct.
       specialize (H bits 0). rewrite Nat.sub_0_r in H. exact H.
     Qed.
 
-    Lemma tag_aligned_width len ck rest : tag_aligned len (ck :: rest) = true ->
+    Lemma tag_aligned_width len ck e rest : tag_aligned len ((ck, e) :: rest) = true ->
       chunk_width ck <= len /\ (len = chunk_width ck \/ tag_aligned (len - chunk_width ck) rest = true).
     Proof.
       cbn [tag_aligned]. intros H. apply orb_prop in H. destruct H as [H|H].
@@ -2150,7 +2436,7 @@ Section Correct.
         Forall (fun p => fst p < List.length env) pend ->
         List.length pend <= List.length t ->
         pend_bits env w pend = firstn (List.length pend) t ->
-        forallb piece_ok rest = true ->
+        forallb (fun p => piece_ok (fst p)) rest = true ->
         (List.length t = List.length pend \/ tag_aligned (List.length t - List.length pend) rest = true) ->
         List.length t + List.length rest < fuel ->
         List.length t + List.length rest + needc <= rfuel ->
@@ -2175,15 +2461,15 @@ Section Correct.
         assert (Hload : List.length pend < List.length (x :: t') ->
                   finishes (match rest with
                             | [] => DFail
-                            | ck :: rest' =>
+                            | (ck, _) :: rest' =>
                                 DOp 0 (chunk_op ck)
                                   (trie_multi snap f cs (pend ++ chunk_srcs (List.length env) (chunk_width ck)) rest'
                                      (S (List.length env)))
                             end) [(0, ord (mkS (skipn (List.length pend) (x :: t') ++ b) r))] env w rfuel v fin).
         { intros Hlt. destruct Hal as [Hal|Hal]; [lia|].
-          destruct rest as [|ck rest']; [cbn [tag_aligned] in Hal; discriminate|].
-          cbn [forallb] in Hpieces. apply andb_prop in Hpieces. destruct Hpieces as [Hpk Hpieces'].
-          destruct (tag_aligned_width _ _ _ Hal) as [Hwd Hal'].
+          destruct rest as [|[ck eg] rest']; [cbn [tag_aligned] in Hal; discriminate|].
+          cbn [forallb fst] in Hpieces. apply andb_prop in Hpieces. destruct Hpieces as [Hpk Hpieces'].
+          destruct (tag_aligned_width _ _ _ _ Hal) as [Hwd Hal'].
           set (tl0 := skipn (List.length pend) (x :: t')) in *.
           assert (Htl : List.length tl0 = List.length (x :: t') - List.length pend)
             by (unfold tl0; apply skipn_length).
@@ -2231,29 +2517,30 @@ Section Correct.
         assert (Htree : trie_multi snap (S f) cs pend rest (List.length env)
                         = match pend with
                           | (vv, i) :: pend' =>
-                              if can_finish cs (List.length pend)
+                              if can_finish cs (List.length pend) || negb (next_eager rest)
                               then DIf vv i (trie_multi snap f (sub_tags false cs) pend' rest (List.length env))
                                             (trie_multi snap f (sub_tags true cs) pend' rest (List.length env))
                               else match rest with
                                    | [] => DFail
-                                   | ck :: rest' =>
+                                   | (ck, _) :: rest' =>
                                        DOp 0 (chunk_op ck)
                                          (trie_multi snap f cs (pend ++ chunk_srcs (List.length env) (chunk_width ck))
                                             rest' (S (List.length env)))
                                    end
                           | [] => match rest with
                                   | [] => DFail
-                                  | ck :: rest' =>
+                                  | (ck, _) :: rest' =>
                                       DOp 0 (chunk_op ck)
                                         (trie_multi snap f cs (pend ++ chunk_srcs (List.length env) (chunk_width ck))
                                            rest' (S (List.length env)))
                                   end
                           end).
-        { cbn [trie_multi]. rewrite Hfd. destruct pend as [|[vv i] pend']; reflexivity. }
+        { destruct cs as [|p0 cs0]; [contradiction|]. cbn [trie_multi]. rewrite Hfd.
+          destruct pend as [|[vv i] pend']; reflexivity. }
         rewrite Htree. clear Htree.
         destruct pend as [|[vv i] pend'].
         + apply Hload. cbn [List.length]. lia.
-        + destruct (can_finish cs (List.length ((vv, i) :: pend'))) eqn:Hcf.
+        + destruct (can_finish cs (List.length ((vv, i) :: pend')) || negb (next_eager rest)) eqn:Hcf.
           * (* the next pending bit is tested *)
             cbn [List.length] in Hpl, Hpb. cbn [pend_bits map firstn fst snd] in Hpb.
             inversion Hpb as [[Hbit Hpb']]. fold (pend_bits env w pend') in Hpb'.
@@ -2272,7 +2559,8 @@ Section Correct.
             destruct Hrec as (ss' & Hrun & Hget). exists ss'. split; [|exact Hget].
             rewrite (run_if tbl rfuel vv i _ _ _ env w x); [|cbn [List.length] in Hrf; lia|exact Hbit].
             cbn [List.length skipn]. destruct x; exact Hrun.
-          * apply Hload. exact (can_finish_false cs (x :: t') c _ Hin Hcf).
+          * apply orb_false_iff in Hcf. destruct Hcf as [Hcf _].
+            apply Hload. exact (can_finish_false cs (x :: t') c _ Hin Hcf).
     Qed.
 
     (* ---- the tag only looked at ---- *)
@@ -2440,7 +2728,7 @@ Section Correct.
     exists c', In c' (t_ctors L) /\ exists rest, b0 = c_tag c' ++ rest.
   Proof.
     intros Hmode. unfold enc_layout.
-    destruct (find (fun c => ctor_matches c x) (t_ctors L)) as [c'|] eqn:Hfind; [|discriminate].
+    destruct (find (fun c => ctor_matches ch c x) (t_ctors L)) as [c'|] eqn:Hfind; [|discriminate].
     apply find_some in Hfind. destruct Hfind as [Hin _]. unfold enc_ctor.
     destruct (enc_items ch ety rty (ctor_look c' x) (c_items c')) as [[b r]|e]; cbn [bind]; [|discriminate].
     intros H. inversion H; subst. exists c'. split; [exact Hin|]. exists b.
@@ -2457,7 +2745,7 @@ Section Correct.
   Local Notation WTC := (wt_ctor ch (wt_type ch st d) (rest_type ch st)).
 
   Lemma tag_correct L c v cx b0 r0 :
-    wf_layout L = true -> peek_ok st L = true -> In c (t_ctors L) -> ctor_matches c v = true ->
+    wf_layout L = true -> peek_ok st L = true -> In c (t_ctors L) -> ctor_matches ch c v = true ->
     WTC (t_snap L) c cx v -> ENCIS (ctor_look c v) (c_items c) = Ok (b0, r0) ->
     forall env w tb tr fuel,
       ctx_ok cx tb tr -> List.length w = List.length env -> List.length env = snap_n L ->
@@ -2470,6 +2758,8 @@ Section Correct.
     unfold wf_layout in Hwf. apply andb_prop in Hwf. destruct Hwf as [Hctors Htrie].
     rewrite forallb_forall in Hctors. specialize (Hctors c Hin). unfold wf_ctor in Hctors.
     apply andb_prop in Hctors. destruct Hctors as [Hctors Hmode].
+    apply andb_prop in Hctors. destruct Hctors as [Hctors Hcondsok].
+    apply andb_prop in Hctors. destruct Hctors as [Hctors Hwtabok].
     apply andb_prop in Hctors. destruct Hctors as [Hctors Hsnapret].
     apply andb_prop in Hctors. destruct Hctors as [Hctors Hnone].
     apply andb_prop in Hctors. destruct Hctors as [Hitems Hgb].
@@ -2482,8 +2772,9 @@ Section Correct.
     assert (Hsame' : match c_ret c with RSame | RSameCls _ => True | _ => False end ->
                      exists nm f, c_items c = [INamed nm f]).
     { intros E. destruct (c_ret c); try contradiction;
-        (destruct (c_items c) as [|[nm f| | | |] [|it r]]; try discriminate; exists nm, f; reflexivity). }
-    assert (Hsnapret' : match t_snap L, c_ret c with Some _, RObj _ _ | None, _ => True | _, _ => False end).
+        (destruct (c_items c) as [|[nm f| | | | | | |] [|it r]]; try discriminate; exists nm, f; reflexivity). }
+    assert (Hsnapret' : match t_snap L, c_ret c with Some _, RObj _ _ | Some _, RObjAlt _ _ _ | None, _ => True
+                                                | _, _ => False end).
     { destruct (t_snap L), (c_ret c); try exact I; discriminate. }
     assert (Hbody : forall tg, body_ok (snap_acc L) c env w (tg ++ tb) (r0 ++ tr) (need_ctor (need_type st d) c) v
                                  (ord (mkS tb tr)) -> True) by trivial.
@@ -2491,7 +2782,7 @@ Section Correct.
     assert (Hbody : body_ok (snap_acc L) c env w (b0 ++ tb) (r0 ++ tr) (need_ctor (need_type st d) c) v
                       (ord (mkS tb tr))).
     { intros more wmore rf Hlm Hrf.
-      apply (ctor_correct (t_snap L) c v cx b0 r0 Hitems Hgb Hnone' Hsame' Hsnapret' Hmatch Hwt Hinner
+      apply (ctor_correct (t_snap L) c v cx b0 r0 Hitems Hgb Hwtabok Hcondsok Hnone' Hsame' Hsnapret' Hmatch Hwt Hinner
                (env ++ more) (w ++ wmore) tb tr rf Hctx).
       - rewrite !app_length. lia.
       - exact Hrf.
@@ -2533,7 +2824,7 @@ Section Correct.
       assert (Hpre : exists rest, b0 = c_tag c ++ rest).
       { unfold peek_ok in Hpeek. rewrite Hm in Hpeek. rewrite forallb_forall in Hpeek.
         specialize (Hpeek c Hin). unfold peek_ctor_ok in Hpeek.
-        destruct (c_items c) as [|[nm f| | | |] [|it r]] eqn:Hits; try discriminate;
+        destruct (c_items c) as [|[nm f| | | | | | |] [|it r]] eqn:Hits; try discriminate;
           try (destruct f; discriminate).
         destruct f as [ | | | | | | | | | | | | | | | | |T a| | | | | | | | | | ]; try discriminate.
         destruct (slookup st T a) as [L'|] eqn:HL'; [|discriminate].
@@ -2568,7 +2859,7 @@ Section Correct.
     unfold wt_layout, need_layout.
     intros Hwf Hpeek Hwt Henc fuel tb tr Hctx Hfuel.
     pose proof Henc as Henc0. unfold enc_layout in Henc.
-    destruct (find (fun c => ctor_matches c v) (t_ctors L)) as [c|] eqn:Hfind; [|contradiction].
+    destruct (find (fun c => ctor_matches ch c v) (t_ctors L)) as [c|] eqn:Hfind; [|contradiction].
     apply find_some in Hfind. destruct Hfind as [Hin Hmatch]. destruct Hwt as [Hwt Hsnap].
     unfold enc_ctor in Henc.
     destruct (ENCIS (ctor_look c v) (c_items c)) as [[b0 r0]|e] eqn:Hinner; cbn [bind] in Henc; [|discriminate].
@@ -2931,6 +3222,16 @@ Lemma impl_ValueFlow_is_spec : impl_ValueFlow = compile spec_ValueFlow.
 Proof. vm_compute. reflexivity. Qed.
 Lemma impl_AccountBlock_is_spec : impl_AccountBlock = compile spec_AccountBlock.
 Proof. vm_compute. reflexivity. Qed.
+Lemma impl_BlkPrevInfo_0_is_spec : impl_BlkPrevInfo_0 = compile spec_BlkPrevInfo_0.
+Proof. vm_compute. reflexivity. Qed.
+Lemma impl_BlkPrevInfo_1_is_spec : impl_BlkPrevInfo_1 = compile spec_BlkPrevInfo_1.
+Proof. vm_compute. reflexivity. Qed.
+Lemma impl_BlockInfo_is_spec : impl_BlockInfo = compile spec_BlockInfo.
+Proof. vm_compute. reflexivity. Qed.
+Lemma impl_ShardDescr_is_spec : impl_ShardDescr = compile spec_ShardDescr.
+Proof. vm_compute. reflexivity. Qed.
+Lemma impl_OutMsg_is_spec : impl_OutMsg = compile spec_OutMsg.
+Proof. vm_compute. reflexivity. Qed.
 (* tree equality only (not in spec_table: no value of a HashmapAugE field is well typed, see Spec/BlockTlb.v) *)
 Lemma impl_ShardAccounts_is_spec : impl_ShardAccounts = compile spec_ShardAccounts.
 Proof. vm_compute. reflexivity. Qed.
@@ -2978,6 +3279,20 @@ Proof.
            HwfL HpkL (impl_agree _ _ _ Hlookup) Hwt Henc); [exact Hctx|lia].
 Qed.
 
+(* the same for a parametrised type (T a) *)
+Theorem C16_generic_args T a L N :
+  forall (Hlookup : slookup spec_table T a = Some L)
+         (Hneed : (need spec_table L <=? N) = true),
+  forall ch cx v tb tr bits refs fuel,
+    wt_in ch spec_table L cx v -> encode_ch ch spec_table L v = Ok (bits, refs) -> ctx_ok cx tb tr -> N <= fuel ->
+    run_type impl_table fuel T a (Cell (-1) (bits ++ tb) (refs ++ tr)) = Ok (v, mkS tb tr).
+Proof.
+  intros Hlookup Hneed ch cx v tb tr bits refs fuel Hwt Henc Hctx Hfuel. apply Nat.leb_le in Hneed.
+  destruct (wf_table_lookup _ _ _ _ spec_table_wf Hlookup) as [HwfL HpkL].
+  apply (run_type_correct impl_table spec_table ch T a L v cx bits refs spec_table_wf impl_agree
+           HwfL HpkL (impl_agree _ _ _ Hlookup) Hwt Henc); [exact Hctx|lia].
+Qed.
+
 (* the types without Either fields, inline Any bodies or snapshots: no choice, any tail *)
 Theorem C16_generic T L N :
   forall (Hlookup : slookup spec_table T [] = Some L)
@@ -2996,7 +3311,7 @@ Lemma wt_snapshot ch st L tb tr v nm bits refs :
   field_of v nm = PCell (Cell ty_ordinary (bits ++ tb) (refs ++ tr)).
 Proof.
   unfold wt_in, encode_ch, wt_layout, snap_ok. intros Hsn Hwt Henc.
-  destruct (find (fun c => ctor_matches c v) (t_ctors L)); [|contradiction].
+  destruct (find (fun c => ctor_matches ch c v) (t_ctors L)); [|contradiction].
   destruct Hwt as [_ Hs]. rewrite Hsn in Hs. rewrite Henc in Hs. exact Hs.
 Qed.
 
